@@ -361,6 +361,9 @@ def step (line : String) : String :=
   | ["ccnew", v] => (match v.toNat? with
       | some n => (match Values.ccNew n with | .ok p => s!"ok:{p}" | .panic _ => "refused")
       | none => "bad-op")
+  | ["ccf", a, b] => (match a.toNat?, b.toNat? with
+      | some x, some y => if x < 16 && y < 16 then fb (Packet.follows x y) else "bad-op"
+      | _, _ => "bad-op")
   | ["tsh", h] => runS (do
       let t ← Values.tshFields (bytesOfHex h)
       pure s!"id={t.id} ver={t.version} cur={fb t.current} sn={t.sectionNumber} lsn={t.lastSectionNumber}")
